@@ -20,6 +20,7 @@ import OFV.Proofs.C08Arith
 import OFV.Proofs.C08Conv
 import OFV.Proofs.C08Rot
 import OFV.Proofs.C08Iter
+import OFV.Proofs.C08Fock
 
 namespace OFV.C08
 open OFV OFV.Spec OFV.Spec.C08 OFV.Model.C08 OFV.C08P
@@ -150,6 +151,19 @@ theorem basis_change_mel (n : Nat) (R : Mat) (key : Key) (T : Tensor)
       = evalT key.length (pull n R key (fun P => termMel (P.zip key) t s)) T := by
   rw [melF_eq_evalW]
   exact basis_change_sound_formal n R key T h _
+
+/-- **`basis_change_sound` on Fock space.**  In `Module.End GQ (ℕ →₀ GQ)` with the ladder operators
+`gF (P, x)` built from `Spec.actF` (C03's Fock interpretation, whose matrix elements are `Spec.melF`):
+the operator denoted by the rotated tensor is the operator denoted by the original tensor with every
+ladder operator `(a, x)` replaced by the rotated one `rotLadder a x = Σ_P R_x[a, P] · (P, x)`
+(`R_x = conj R` for creation operators, `R` for annihilation operators):
+`⟦general_basis_change(M, R, key)⟧ = Σ_a M[a] · Π_i rotLadder(a_i, key_i)`,
+for every order, mixed actions and every complex matrix `R` (unitary or not). -/
+theorem basis_change_sound_fock (n : Nat) (R : Mat) (key : Key) (T : Tensor)
+    (hT : Shaped n key.length T) (hkey : ∀ x ∈ key, x < 2) :
+    Proofs.C03.fockInterp.evalOp (denoteTensor key (basisChange n R key T))
+      = ((indices n key.length).map fun a => (tget a T).getD 0 • rotWord n R a key).sum :=
+  basisChange_fock n R key T hT hkey
 
 /-- the rotated array has the shape of the input -/
 theorem basis_change_shape (n : Nat) (R : Mat) (key : Key) (T : Tensor)
